@@ -109,6 +109,10 @@ def build(ch, with_options=True):
     c11.imp = imp11
     if not (imp10 or imp11 or imp19):
         ch.reject('nothing to convert')
+    # the region of container 10 written as one box or as the union of its two halves (cut by the plane y = 0)
+    if ch.choose('container10-shape', ['box', 'union-of-halves']) == 'union-of-halves':
+        d.add_surface(26, 'py', [0.0])
+        c10.expr = (':', ('*', ('*', 1, -2), ('*', 4, -26)), ('*', ('*', 1, -2), ('*', 26, -5)))
     if fill10:
         c10.mat = 0; c10.fill = 1; c10.filltr = make_tr(d, t10, sp10, 7)
     if fill11:
